@@ -3,6 +3,7 @@ package main
 import (
 	"encoding/json"
 	"fmt"
+	"go/constant"
 	"go/token"
 	"go/types"
 	"os"
@@ -27,12 +28,14 @@ import (
 // a constructor no longer initialises, an error no longer forwarded.
 
 type dropRef struct {
-	Note   string              `json:"note"`
-	Calls  map[string][]string `json:"calls"`  // function -> sorted multiset of effectful callees
-	Fields map[string][]string `json:"fields"` // function -> sorted set of assigned fields
-	Funcs  []string            `json:"funcs"`  // full names of the declared functions
-	Must   map[string][]string `json:"must"`   // function -> effectful callees that are called on every path to a return
-	Params map[string][]string `json:"params"` // function -> per parameter (receiver first): its type if the parameter is used, "" if not
+	Note    string              `json:"note"`
+	Calls   map[string][]string `json:"calls"`   // function -> sorted multiset of effectful callees
+	Fields  map[string][]string `json:"fields"`  // function -> sorted set of assigned fields
+	Funcs   []string            `json:"funcs"`   // full names of the declared functions
+	Gos     map[string]int      `json:"gos"`     // function -> number of go statements
+	Rejects map[string][]string `json:"rejects"` // function -> the constant messages of the errors it constructs
+	Must    map[string][]string `json:"must"`    // function -> effectful callees that are called on every path to a return
+	Params  map[string][]string `json:"params"`  // function -> per parameter (receiver first): its type if the parameter is used, "" if not
 }
 
 var dropGroups = groupsOf([][]string{
@@ -182,6 +185,37 @@ func mustCalls(g *ssa.Function) []string {
 	return out
 }
 
+func countGos(g *ssa.Function) int {
+	n := 0
+	allInstrs(g, func(ins ssa.Instruction) {
+		if _, ok := ins.(*ssa.Go); ok {
+			n++
+		}
+	})
+	return n
+}
+
+// rejectionMessages: the constant message / format strings of the errors g constructs.
+func rejectionMessages(g *ssa.Function) []string {
+	set := map[string]bool{}
+	allInstrs(g, func(ins ssa.Instruction) {
+		cl, ok := ins.(*ssa.Call)
+		if !ok {
+			return
+		}
+		sc := cl.Call.StaticCallee()
+		if sc == nil || !isErrorConstructor(sc) {
+			return
+		}
+		for _, a := range cl.Call.Args {
+			if k, isK := a.(*ssa.Const); isK && k.Value != nil && k.Value.Kind() == constant.String {
+				set[constant.StringVal(k.Value)] = true
+			}
+		}
+	})
+	return sortedKeys(set)
+}
+
 // usedParams: per parameter its type when the body uses it, "" when it does not.
 func usedParams(g *ssa.Function) []string {
 	out := make([]string, len(g.Params))
@@ -206,7 +240,7 @@ func genDropReference(repo string) error {
 	if err != nil {
 		return err
 	}
-	ref := dropRef{Note: "per function of the reference tree: calls with an effect and struct fields assigned; generated by `bbcheck -gen-reference`, never written by a check", Calls: map[string][]string{}, Fields: map[string][]string{}, Params: map[string][]string{}, Must: map[string][]string{}}
+	ref := dropRef{Note: "per function of the reference tree: calls with an effect and struct fields assigned; generated by `bbcheck -gen-reference`, never written by a check", Calls: map[string][]string{}, Fields: map[string][]string{}, Params: map[string][]string{}, Must: map[string][]string{}, Gos: map[string]int{}, Rejects: map[string][]string{}}
 	for _, rel := range allDropPkgs() {
 		for _, tf := range p.srcFuncs(rel) {
 			if tf.Object() != nil {
@@ -214,6 +248,10 @@ func genDropReference(repo string) error {
 			}
 			withAnon(tf, func(g *ssa.Function) {
 				ref.Params[FuncName(g)] = usedParams(g)
+				ref.Gos[FuncName(g)] = countGos(g)
+				if m := rejectionMessages(g); len(m) > 0 {
+					ref.Rejects[FuncName(g)] = m
+				}
 				if m := mustCalls(g); len(m) > 0 {
 					ref.Must[FuncName(g)] = m
 				}
@@ -278,6 +316,25 @@ func runDropDrift(c *Ctx, pkgs []string) {
 		}
 		return id
 	}
+	// messages constructed anywhere in the packages now (a rejection that moved into a helper is still there)
+	messageElsewhere := map[string]bool{}
+	for _, rel := range allDropPkgs() {
+		for _, tf := range c.srcFuncs(rel) {
+			withAnon(tf, func(g *ssa.Function) {
+				// any occurrence of the text: the message may now be handed to a helper that builds the error
+				allInstrs(g, func(ins ssa.Instruction) {
+					for _, op := range ins.Operands(nil) {
+						if *op == nil {
+							continue
+						}
+						if k, isK := (*op).(*ssa.Const); isK && k.Value != nil && k.Value.Kind() == constant.String {
+							messageElsewhere[constant.StringVal(k.Value)] = true
+						}
+					}
+				})
+			})
+		}
+	}
 	existing := map[string]bool{}
 	for _, rel := range allDropPkgs() {
 		for _, tf := range c.srcFuncs(rel) {
@@ -296,6 +353,24 @@ func runDropDrift(c *Ctx, pkgs []string) {
 				refCalls, known := dropRefCache.Calls[fk]
 				if !known {
 					return
+				}
+				// something that was finished before the function returned is now left running
+				if n, knownG := dropRefCache.Gos[fk]; knownG {
+					if cg := countGos(g); cg > n {
+						c.Fail(fk, "not-made-asynchronous", c.Pos(g.Pos()), fmt.Sprintf("the function starts %d goroutine(s), %d on the reference tree: work that was complete when the function returned (and whose failure the caller could see) now runs on after it", cg, n))
+					}
+				}
+				// a rejection that disappeared
+				if msgs, knownR := dropRefCache.Rejects[fk]; knownR {
+					have := map[string]bool{}
+					for _, m := range rejectionMessages(g) {
+						have[m] = true
+					}
+					for _, m := range msgs {
+						if !have[m] && !messageElsewhere[m] {
+							c.Fail(fk, "rejection-kept "+m, c.Pos(g.Pos()), "on the reference tree this function refuses some inputs with the error \""+m+"\"; that error is no longer constructed here nor anywhere else in these packages – the inputs it was for are now accepted (or fail later, somewhere else, as something else)")
+						}
+					}
 				}
 				// a parameter the function used to look at and now ignores
 				if want := dropRefCache.Params[fk]; len(want) == len(g.Params) && len(g.Blocks) > 0 {
